@@ -321,6 +321,19 @@ def _filter_list(ctx, comp_factory: FuncInfo):
                     return True, n.targets[0].id, ""
                 if isinstance(g.iter, ast.Subscript) and isinstance(g.iter.value, ast.Name) and g.iter.value.id == p:
                     return False, n.targets[0].id, "the composite iterates over a slice of the requested filters"
+            one_shot = (
+                isinstance(v, ast.GeneratorExp)
+                or (isinstance(v, ast.Call) and dotted(v.func) in ("map", "filter", "iter", "zip", "reversed"))
+            )
+            if one_shot and any(isinstance(x, ast.Name) and x.id == p for x in ast.walk(v)):
+                return False, n.targets[0].id, (
+                    f"the filter list is a one-shot iterator (`{ast.unparse(v)[:60]}`) consumed by the first call "
+                    "of the composite: every later call applies no filter at all"
+                )
+            if isinstance(v, ast.Call) and dotted(v.func) in ("list", "tuple") and v.args and isinstance(v.args[0], ast.GeneratorExp):
+                g = v.args[0].generators[0]
+                if isinstance(g.iter, ast.Name) and g.iter.id == p and not g.ifs:
+                    return True, n.targets[0].id, ""
             if isinstance(v, ast.Call) and dotted(v.func) == "list" and v.args and isinstance(v.args[0], ast.Call):
                 c = v.args[0]
                 if dotted(c.func) == "map" and len(c.args) == 2 and isinstance(c.args[1], ast.Name) and c.args[1].id == p:
